@@ -45,6 +45,7 @@ fn main() {
         "visit" => |t| dump::visit(&t[1..]),
         "emit" => |t| front::emit(&t[1..]),
         "run" => |t| front::run(&t[1..]),
+        "fileset" => |t| front::fileset(&t[1..]),
         _ => {
             eprintln!("unknown component {comp}");
             std::process::exit(2);
